@@ -330,7 +330,7 @@ func BalancesMB(b *block.Block, txn *transaction.Transaction, mb *block.MagicBlo
 	lfmb.MagicBlock = mb
 	sc := cstate.NewStateContext(b, t, txn,
 		func(int64) *block.MagicBlock { return mb },
-		func() *block.Block { return b },
+		func() *block.Block { return lfmb },
 		func() *block.MagicBlock { return mb },
 		func() encryption.SignatureScheme { return encryption.NewBLS0ChainScheme() },
 		func() *block.Block { return lfmb },
@@ -477,6 +477,33 @@ func PickFields(menu [][2]string, n int) [][2]string {
 			}
 		}
 		out = append(out, menu[i])
+	}
+	return out
+}
+
+// DeterministicUniform is Deterministic for code with many map ranges: under the executor the
+// reference execution iterates every map in ascending key order and the second execution uses
+// one of `policies`-1 other uniform policies (descending, rotated by 1, 2, ...) for every map
+// it ranges over; natively as Deterministic.
+func DeterministicUniform(label string, policies int, f func() (string, util.MerklePatriciaTrieI)) {
+	if !sym.Symbolic() {
+		Deterministic(label, f)
+		return
+	}
+	other := sym.Choice("mapOrderPolicy", 1, policies-1)
+	sym.MapOrder(0)
+	first, firstTrie := f()
+	sym.MapOrder(other)
+	r, t := f()
+	sym.MapOrder(0)
+	sym.Assert(r == first && SameWrites(firstTrie, t), label)
+}
+
+// EventsText renders the tags and indices of the events emitted so far, in order.
+func EventsText(balances cstate.StateContextI) string {
+	out := ""
+	for _, e := range balances.GetEvents() {
+		out += e.Tag.String() + ":" + e.Index + ";"
 	}
 	return out
 }
